@@ -164,6 +164,13 @@ def observe(s, intent=None, styles=None, seps=None, lead="", trail="", full_run=
         ev["obs"] = {"kind": "exc", "cls": type(e).__name__, "toks": [], "opt": [], "toksAfter": []}
         sa = None
     if intent is not None:
+        # a token with a blank inside: the line that has the same words as separate tokens ("say a b" before "say 'a b'") is
+        # seen first by the long-lived applications, in the string form only - whatever they keep per text must not leak
+        words_ = [w for t in intent for w in t.split()]
+        if any(" " in t for t in intent) and words_ and all(w.replace("-", "").replace("=", "").isalnum() for w in words_):
+            outcome(StringArgs(" ".join(words_)))
+            if full_run:
+                run_outcome(StringArgs(" ".join(words_)))
         argv = ["prog"] + list(intent)
         before = list(argv)
         ev["hasArgv"] = True
@@ -265,15 +272,19 @@ def run(ctx):
     ws = WS_ALL
     # (punctuation that is special to shells but ordinary here: no character outside whitespace, quotes and backslash has a meaning)
     alpha = "ab \t'\"\\-=\u00e9\n\x0b\xa0" + "ab \t'\"\\-" + "#$;|&*~!,:@%^()[]{}<>?+./`"
-    words = ["help", "a", "aa", "-h", "--", "x", "--opt", "-f", "-", "--help", "v", "--opt=v", "#x", "#", "$v", "a;b", "*", "~", "&&", "|", ">f", "`x`", "!1"]
+    words = ["help", "a", "aa", "-h", "--", "x", "--opt", "-f", "-", "--help", "v", "--opt=v", "#x", "#", "$v", "a;b", "*", "~", "&&", "|", ">f", "`x`", "!1", "x y", "a b", "v w x"]
     traces, cases = [], []
     deep_traces, deep_cases = [], []
     nlists = 1500 if quick else 20000
-    for _ in range(nlists):
+    fixed = [["a", "x y"], ["a", "v w x"], ["aa", "a b"], ["help", "a b"], ["a", "x y", "-f"], ["x", "a b", "v"], ["a", "a b"], ["aa", "x y", "v w x"]]
+    for it in range(nlists):
         n = ctx.rng.randint(0, 4)
         toks, styles = [], []
-        wordy = ctx.rng.random() < 0.4
-        for _k in range(n):
+        wordy = ctx.rng.random() < 0.4 or it < len(fixed)
+        if it < len(fixed):   # a command name followed by values with blanks inside, each list once
+            n = len(fixed[it])
+            toks, styles = list(fixed[it]), ["dq" if " " in t else "no" for t in fixed[it]]
+        for _k in range(0 if it < len(fixed) else n):
             while True:
                 t = ctx.rng.choice(words) if wordy else "".join(ctx.rng.choice(alpha) for _j in range(ctx.rng.randint(0, 5)))
                 st = ctx.rng.choice(["sq", "dq", "no"])
@@ -308,6 +319,9 @@ def run(ctx):
     deep = []
     for k in ((200, 520, 1100) if quick else (200, 520, 800, 1100, 1600, 2500)):
         deep += ["'\"" * k, "x \"'" * k + "y", "a'b\"" * (k // 2) + " z"]
+    # ... and one token glued together from very many quoted pieces (repetition instead of nesting)
+    for k in ((1500,) if quick else (1500, 4000)):
+        deep += ["''" * k, "-a" + '"b c"' * k, "k='v'," * k + " z", "'" * k]
     for s in deep:
         deep_traces.append([observe(s)])
         deep_cases.append({"kind": "string", "s": s})
